@@ -86,8 +86,8 @@ func verifStubReadAll(r io.Reader) ([]byte, error) {
 	return verifInput, nil
 }
 
-func verifStubIsTerminal(fd int) bool           { return false }
-func verifStubFd(f *os.File) uintptr { return 0 }
+func verifStubIsTerminal(fd int) bool                    { return false }
+func verifStubFd(f *os.File) uintptr                     { return 0 }
 func verifStubEnvContext(e *command.Env) context.Context { return nil }
 
 func verifHarnessC18RunPut() {
